@@ -154,7 +154,8 @@ func TestC02Stress(t *testing.T) {
 						w.ClearAll(g)
 					case "pub":
 						if o.Ctx {
-							w.Publish(g, o.T, context.Background())
+							id := w.NextEID()
+							w.PublishID(g, o.T, &conc.NoisyCtx{Context: context.Background(), W: w, EID: id}, id)
 						} else {
 							w.Publish(g, o.T, nil)
 						}
